@@ -170,6 +170,18 @@ func isZeroTest(info *types.Info, e ast.Expr) (bool, string) {
 			// v == T{}: comparison with the zero value written as an empty composite literal
 			for _, side := range []ast.Expr{x.X, x.Y} {
 				if cl, ok := ast.Unparen(side).(*ast.CompositeLit); ok && len(cl.Elts) == 0 {
+					// not for a type that defines its own notion of zero (time.Time: the zero instant may
+					// carry a Location, and is still the zero time)
+					if t := info.TypeOf(cl); t != nil {
+						for _, tt := range []types.Type{t, types.NewPointer(t)} {
+							ms := types.NewMethodSet(tt)
+							for i := 0; i < ms.Len(); i++ {
+								if ms.At(i).Obj().Name() == "IsZero" {
+									return false, "comparison with " + typeStr(t) + "{} where the type defines IsZero(): values that are zero by the type's own definition (a zero time with a Location) are not omitted"
+								}
+							}
+						}
+					}
 					return true, ""
 				}
 			}
